@@ -61,9 +61,23 @@ def cases(tier, rng):
         g = cards.rand_grid(rng)
         out.append(dict(id=f"c18-e2e-{i}", mode="e2e", kind=cards.pick(rng, cfg["kinds"]), heavy=cards.pick(rng, ["total", "light", "charm"]), grid=g,
                         points=cards.rand_points(rng, g["xgrid"], n=2, q2lo=3.0, q2hi=3e3, xmax=0.7), **cfg))  # fmt: skip
+    # anchors: the target-mass-correction kernels (h2, g2, h3, k2) are only reached with TMC on, k2 only by g1 in exact mode
+    k = 0
+    for kind in ("F2", "FL", "F3", "g1"):
+        for tmc in (1, 3):
+            g = cards.rand_grid(rng)
+            base = dict(kind=kind, heavy="total", grid=g, points=[dict(x=float(rng.uniform(0.3, 0.6)), Q2=cards.logu(rng, 5.0, 50.0), cls="bulk")],
+                        theory=dict(PTO=int(cards.pick(rng, [0, 1])), FNS="ZM-VFNS", NfFF=4, TMC=tmc, MP=float(rng.uniform(0.5, 1.5))),
+                        obs=dict(prDIS="NC" if kind != "F3" else "CC", ProjectileDIS="electron" if kind != "F3" else "neutrino"), kinds=[kind])  # fmt: skip
+            out.append(dict(id=f"c18-brun-tmc{k}", mode="bounds-run", **base))
+            out.append(dict(id=f"c18-e2e-tmc{k}", mode="e2e", **base))
+            k += 1
     n = 40 if tier == "quick" else 1500
     for i in range(n):
         cfg = cards.rand_config(rng, ptos=(0, 1, 2, 3), sv=True)
+        if i % 5 == 0:
+            cfg["theory"]["TMC"] = int(cards.pick(rng, [1, 2, 3]))
+            cfg["kinds"] = [k_ for k_ in cfg["kinds"] if k_ not in ("gL", "g4")]
         g = cards.rand_grid(rng)
         out.append(dict(id=f"c18-brun-{i}", mode="bounds-run", kind=cards.pick(rng, cfg["kinds"]), heavy=cards.pick(rng, ["total", "light", "charm", "bottom"]), grid=g,
                         points=cards.rand_points(rng, g["xgrid"], n=1, q2lo=3.0, q2hi=3e3, xmax=0.7), **cfg))  # fmt: skip
@@ -259,6 +273,9 @@ def run_full(case):
     except IndexError as e:
         if case["mode"] == "bounds-run":
             return dict(violations=[dict(sig=f"oob-run|{run.exc_sig(e)}", what=f"{name} {case['obs']['prDIS']} {th['FNS']} PTO={th['PTODIS']}: IndexError under NUMBA_BOUNDSCHECK=1: {e}")], compared=1, classes=["bounds-run"])
+        if case["mode"] == "e2e":
+            # (an IndexError in interpreter mode where the compiled run returns numbers is exactly a disagreement of the two)
+            return dict(status="held", raised=f"IndexError: {str(e)[:80]}", compared=0, classes=["e2e"])
         raise
     except (ValueError, NotImplementedError) as e:
         # a rejection of the request (C16 judges those): for e2e both executions must agree on it
